@@ -9,77 +9,77 @@ VERIF = os.path.dirname(os.path.dirname(os.path.abspath(__file__)))
 CLAIMED = {
     "C04": {
         "category": "fault_enumeration",
-        "text": "For every generated program (functions, methods, lambdas with 0..3 parameters; locals before/inside/after tries; assignments; captured variables; for/while loops; tries nested to depth 3 with one to three catch clauses and class filters; handlers containing fault points, closures over the catch variable and rendezvous with another fiber; a module-level handler that sometimes matches one class only (errors without any matching handler must end the program with a traceback and a failing status); exits by completion, break, continue, return through several tries; callbacks run by native iterators incl. the lazy for protocol) every dynamic fault point (up to 40; through a helper call or inline in the frame of the try) is enumerated with error kinds: raise of Error / user subclass, IndexError, RuntimeError, PropertyError from the interpreter, stack overflow by unbounded recursion, an operator applied to operands of the wrong type, and IoError produced by a simulator-injected failure of the n-th file system read. An executable model of the IR gives the expected handler and the expected value of every variable in scope; GC schedule and address policy vary per program.",
+        "text": "For every generated program (functions, methods, lambdas with 0..3 parameters; locals before/inside/after tries; assignments; captured variables; for/while loops; tries nested to depth 3 with one to three catch clauses and class filters; handlers containing fault points, closures over the catch variable and rendezvous with another fiber; a module-level handler that sometimes matches one class only (errors without any matching handler must end the program with a traceback and a failing status); exits by completion, break, continue, return through several tries; callbacks run by native iterators incl. the lazy for protocol; in a quarter of the programs the outermost function is the root of a launched fiber, whose stack is sized from that function alone) every dynamic fault point (up to 40; through a helper call or inline in the frame of the try) is enumerated with error kinds: raise of Error / user subclass, IndexError, RuntimeError, PropertyError from the interpreter, stack overflow by unbounded recursion, an operator applied to operands of the wrong type, an instance of a second unrelated class that carries the name of a filter class, and IoError produced by a simulator-injected failure of the n-th file system read. An executable model of the IR gives the expected handler and the expected value of every variable in scope; GC schedule and address policy vary per program.",
         "design_ref": "DESIGN.md section 3 C04",
-        "note": "Quick tier enumerates all points x 2 seeded kinds per program, thorough all 8 kinds. A program whose fault-free reference run itself fails is counted as invalid_workload. The model shares no code with Laythe.",
+        "note": "Quick tier enumerates all points x 2 seeded kinds per program, thorough all 9 kinds. A program whose fault-free reference run itself fails is counted as invalid_workload. The model shares no code with Laythe.",
         "technique": "deterministic simulation with fault injection: enumerated dynamic fault points x error kinds (incl. injected fs faults), executable IR model as oracle",
     },
     "C10": {
         "category": "exploration",
-        "text": "Generated mutation/observation histories over lists (initial lengths around the growth capacities), maps and instances through aliases in locals/parameters, module variables, fields, nested list elements, map keys (also of a map with a few hundred entries: equal numbers such as 0 and -0 find the same entry), tuple elements, closure captures, channel buffers, live loop iterators, callee frames, tables collected by natives, and parameters of other fibers (mutations and observations also performed by another fiber across context switches); tuples and closures as identity-bearing keys, under seeded GC schedules; every observation must equal a reference heap with immutable identities.",
+        "text": "Generated mutation/observation histories over lists (initial lengths around the growth capacities), maps and instances through aliases in locals/parameters, module variables, fields, nested list elements, map keys (also of a map with a few hundred entries: equal numbers such as 0 and -0 find the same entry), tuple elements, closure captures, channel buffers, live loop iterators, callee frames, tables collected by natives, copies made by sort/slice/rev/list/collect (fresh objects whatever the receiver's length), map entries kept while the walk goes on, keys that only the map refers to, and parameters of other fibers (mutations and observations also performed by another fiber across context switches); tuples and closures as identity-bearing keys, under seeded GC schedules; every observation must equal a reference heap with immutable identities.",
         "design_ref": "DESIGN.md section 3 C10",
         "note": "Exempt by construction (pinned known finding C10-forwarded-list-identity): identity observations on a list that has grown past its capacity when a side is read from a non-stack location. All content observations and all other identity observations are enforced.",
         "technique": "deterministic simulation: alias mutation histories incl. cross-fiber aliases under seeded GC schedules, reference-heap oracle",
     },
     "C17": {
         "category": "exploration",
-        "text": "Generated acyclic module graphs (1..6 files incl. packages nested up to three levels) live in the simulated file system; the main module imports them in every form (whole, renamed, selected symbols with renames, repeated, transitive), optionally while a user fiber (paced by rendezvous so that it completes at a seeded point) is alive across the imports and with fibers inside module bodies (synchronous or buffered channels); packages sharing leaf names; exported variables that the module reassigns later and exports holding nil (every import statement yields a snapshot of the exported values of that moment); one module file may carry an injected read fault (not found / permission denied / invalid UTF-8); missing modules, non-exported and private names are requested on purpose. A module-graph model gives the expected marker order (first-import DFS, exactly once, before the importer continues), exported values, the private counter observable only through its export, and which runs must end with an ImportError before any later statement.",
+        "text": "Generated acyclic module graphs (1..6 files incl. packages nested up to three levels) live in the simulated file system; the main module imports them in every form (whole, renamed, selected symbols with renames, repeated, transitive), optionally while a user fiber (paced by rendezvous so that it completes at a seeded point) is alive across the imports and with fibers inside module bodies (synchronous or buffered channels; bodies that end while a second sender or a worker of the module is still parked on the module's channel); packages sharing leaf names; exported variables that the module reassigns later and exports holding nil (every import statement yields a snapshot of the exported values of that moment); one module file may carry an injected read fault (not found / permission denied / invalid UTF-8); missing modules, non-exported and private names are requested on purpose. A module-graph model gives the expected marker order (first-import DFS, exactly once, before the importer continues), exported values, the private counter observable only through its export, and which runs must end with an ImportError before any later statement.",
         "design_ref": "DESIGN.md section 3 C17",
         "note": "Imports are only legal at module scope (observed), so import failures cannot be caught; a parent package file is provided and run before a nested module as the shipped loader does.",
         "technique": "deterministic simulation: module graphs in a simulated fs with read faults and fibers alive across imports, module-graph model as oracle",
     },
     "C19": {
         "category": "exploration",
-        "text": "Generated prompt sessions (4..18 entries: lets, functions, classes, subclasses, instances, closures, functions with property/method/super sites called many entries later, module imports and calls into them, fibers within an entry and fibers launched by one entry and used by later ones, functions of later entries assigning to variables of earlier entries, entries whose definitions take effect before they raise, and failing entries of 9 kinds incl. failing imports) are fed through the scripted read_line seam under seeded GC schedules; stdout with prompts stripped must equal Vm::run on the concatenation of the successful entries; failing entries must produce diagnostics and leave the session usable; EOF is injected after every prefix (enumerated) and the cut session must print a prefix of the full session and exit 0.",
+        "text": "Generated prompt sessions (4..18 entries: lets, functions, classes, subclasses, instances, closures, functions with property/method/super sites called many entries later, module imports and calls into them, fibers within an entry and fibers launched by one entry and used by later ones, functions of later entries assigning to variables of earlier entries, entries whose definitions take effect before they raise, fibers parked on a channel across several entries and served by a later one, a line given up because a fiber it launched raised while the line was parked, failed imports repeated under another name, and failing entries of 9 kinds incl. failing imports) are fed through the scripted read_line seam under seeded GC schedules; stdout with prompts stripped must equal Vm::run on the concatenation of the successful entries; failing entries must produce diagnostics and leave the session usable; EOF is injected after every prefix (enumerated) and the cut session must print a prefix of the full session and exit 0.",
         "design_ref": "DESIGN.md section 3 C19",
-        "note": "Failing entries are constructed to have no effect before they fail; fibers are started and joined within one entry.",
+        "note": "Failing entries are constructed to have no effect before they fail (or carry what took effect as an explicit third element); results of fibers that live across entries are observed through order-independent sums.",
         "technique": "deterministic simulation: scripted stdin sessions with failing entries and EOF injected at every prefix, differential against one-file execution",
     },
     "C05": {
         "category": "fault_enumeration",
-        "text": "Every single collectable allocation point x {nursery, full} is enumerated for every fixture program (all pairs in the thorough tier), plus seeded every/bernoulli/burst/periodic/threshold schedules over the corpus and over generated workloads (iterator pipelines with allocating callbacks, object churn, fiber networks, class programs, string histories, exception frames with injected faults, alias histories, module graphs, prompt sessions), on a simulated heap that poisons freed blocks and either quarantines or eagerly reuses addresses. The never-collect run of the same program is the oracle; a header-validity hook turns any traced or dereferenced freed object into a typed panic. This samples (and for single points enumerates) the schedule quantifier; it is evidence, not proof.",
+        "text": "Every single collectable allocation point x {nursery, full} is enumerated for every fixture program (all pairs in the thorough tier), plus seeded every/bernoulli/burst/periodic/threshold schedules over the corpus and over generated workloads (iterator pipelines with allocating callbacks incl. walks over maps and pipelines run as the root function of a freshly launched fiber, object churn incl. class hierarchies made at run time of which only the leaf escapes, fiber networks, class programs, string histories, exception frames with injected faults, alias histories, module graphs, prompt sessions), on a simulated heap that poisons freed blocks and either quarantines or eagerly reuses addresses. The never-collect run of the same program is the oracle; a header-validity hook turns any traced or dereferenced freed object into a typed panic. This samples (and for single points enumerates) the schedule quantifier; it is evidence, not proof.",
         "design_ref": "DESIGN.md section 3 C05, section 2.3-2.4",
         "note": "Trusts: the never-collect run as specification; poison+quarantine detecting freed-object reads; address-sensitive programs (detected by an address perturbation self-test) compared on exit class only. Both value representations: a third of the seeded cases (and, in the thorough tier, a second full single-point enumeration) run on the NaN-boxed worker.",
         "technique": "deterministic simulation with fault injection: enumerated + seeded GC schedules on a simulated heap, differential vs never-collect",
     },
     "C07": {
         "category": "exploration",
-        "text": "Generated fiber/channel networks (sync and buffered channels, 1-5 fibers launched as functions, lambdas, methods and capturing closures, scripts of send/receive/close/drain/send-after-close; fibers launched by other fibers in the middle of their scripts; random, fan-in/out, backlog-at-close, ping-pong, count-balanced, early-wake (children completing while their parent sleeps on a channel) and stale-sender patterns) run on the real, unperturbed scheduler under seeded GC schedules and address policies. The recorded history (the program's own per-operation records) is judged by a history checker: nothing invented, duplicated, dropped or reordered per (sender, channel); len() never above capacity; a synchronous sender's post-send record never precedes the receipt; after close buffered values in order, then nil, sends raise; conservation sends == receipts + buffered at the end.",
+        "text": "Generated fiber/channel networks (sync and buffered channels, 1-5 fibers launched as functions, lambdas, methods and capturing closures, scripts of send/receive/close/drain/send-after-close; fibers launched by other fibers in the middle of their scripts; random, fan-in/out, backlog-at-close, ping-pong, count-balanced, early-wake (children completing while their parent sleeps on a channel), stale-sender, receivers-parked-at-close, fan-out-then-close-all and left-over-registration patterns) run on the real, unperturbed scheduler under seeded GC schedules and address policies. The recorded history (the program's own per-operation records) is judged by a history checker: nothing invented, duplicated, dropped or reordered per (sender, channel); len() never above capacity; a synchronous sender's post-send record never precedes the receipt; after close buffered values in order, then nil (never nil while the channel still holds values), sends raise; conservation sends == receipts + buffered at the end.",
         "design_ref": "DESIGN.md section 3 C07",
         "note": "Interleavings are those the shipped run queue produces for the generated network (the scheduler is the system under test and is not perturbed). Half of the networks send heap values (strings built at run time) that are reachable only through the channel while in flight, so a buffered or parked value that is freed or corrupted shows as a poisoned read. Verdict zone: a channel is closed only by a fiber that has itself sent to or received from it before the close (sends of other fibers into such a channel are guarded by try/catch); no channel operations in native callbacks (pinned known finding).",
         "technique": "deterministic simulation: generated process networks on the real scheduler, history checker over the recorded event sequence",
     },
     "C08": {
         "category": "exploration",
-        "text": "Same networks as C07. The oracle is the set of outcomes {complete, deadlock} allowed by an ideal process-network model (bounded FIFOs, blocking operations, any schedule) obtained by exhaustive memoised search of the model's own state space; the run must end inside that set, never by step-budget exhaustion (hang/spin), host panic or internal error; launch must pass arguments/receiver/captures (each fiber echoes a tag); a joined program completes with every fiber's effects; nothing runs after main ends; deadlock is reported with a failing status.",
+        "text": "Same networks as C07. The oracle is the set of outcomes {complete, deadlock} allowed by an ideal process-network model (bounded FIFOs, blocking operations, any schedule) obtained by exhaustive memoised search of the model's own state space; the run must end inside that set, never by step-budget exhaustion (hang/spin), host panic or internal error; launch must pass arguments/receiver/captures (each fiber echoes a tag); a joined program completes with every fiber's effects; nothing runs after main ends; deadlock is reported with a failing status. One run in forty is a fairness probe instead: fibers that need nothing are launched around two fibers that keep handing a value to each other, and every one of them must have had its turn within 300 hand-overs.",
         "design_ref": "DESIGN.md section 3 C08",
         "note": "Bounded liveness in VM instructions (20000 + 10000 per operation). When the model allows both outcomes either is accepted. Same verdict zone as C07; pinned known findings: C08-close-by-non-user (close by a fiber that never used the channel wakes nobody) and C08-channel-op-in-native-callback.",
         "technique": "deterministic simulation: generated process networks on the real scheduler vs the outcome set of an exhaustively explored ideal model; bounded liveness",
     },
     "C09": {
         "category": "exploration",
-        "text": "Generated create/drop/re-create histories over string slots through 11 creation routes (incl. another module and a file read through the simulated fs), plus member names (a class of the first module uses its fields only through self, a module compiled after the collections reaches the same fields and methods by name), with collections (nursery/full/double) placed right after `#gc` markers and at seeded points, under eager/seeded address reuse and quarantine. Every ==, !=, ordering, Map has/get/remove/len, List/Tuple has, List index observation must equal the generator's content model; the worker's intern-table monitor checks after every full collection that the table holds exactly the owned strings and that every key is its string's text.",
+        "text": "Generated create/drop/re-create histories over string slots through 11 creation routes (incl. another module and a file read through the simulated fs), strings of several thousand bytes, pairs of equally long strings (130-200 bytes) that differ only in the middle, several thousand distinct strings alive at once (the intern table grows and re-buckets), module-level texts of a module whose functions nest three deep (compiled after the collections), plus member names (a class of the first module uses its fields only through self, a module compiled after the collections reaches the same fields and methods by name), with collections (nursery/full/double) placed right after `#gc` markers and at seeded points, under eager/seeded address reuse and quarantine. Every ==, !=, ordering, Map has/get/remove/len, List/Tuple has, List index observation must equal the generator's content model; the worker's intern-table monitor checks after every full collection that the table holds exactly the owned strings and that every key is its string's text.",
         "design_ref": "DESIGN.md section 3 C09",
         "note": "Content model = python string operations on generator-chosen literals; byte-wise UTF-8 ordering; member names are identifiers in the source (there is no by-string member access), so they are exercised through a second module compiled later.",
         "technique": "deterministic simulation: string histories under marker-aligned and seeded GC schedules with address reuse, content-model oracle plus intern-table invariant monitor",
     },
     "C13": {
         "category": "exploration",
-        "text": "Generated class programs (static hierarchies to depth 3, differing field orders, super chains, classes created and dropped at run time with fresh subclasses, fields shadowing methods, shadow/unshadow flips, shared call/get/set/compound-assign/bound-method sites, the same receivers through a second module's sites, a launch of the other module's function directly followed by a site, garbage and class churn between uses; a third of the programs entered line by line at the prompt) executed twice under the same seeded GC schedule and address policy (70% with address reuse): caches enabled vs every lookup forced to miss. Outputs, exit and host failures must agree; each site's result is also checked against what the program's construction prescribes.",
+        "text": "Generated class programs (static hierarchies to depth 3, differing field orders, super chains, classes created and dropped at run time with fresh subclasses, fields shadowing methods, shadow/unshadow flips, shared call/get/set/compound-assign/bound-method sites, the same receivers through a second module's sites, a launch of the other module's function directly followed by a site, calls with the wrong number of arguments repeated at one site, a class factory (one super site evaluated with different superclasses), modules with more than 256 sites of each kind, garbage and class churn between uses; a third of the programs entered line by line at the prompt) executed twice under the same seeded GC schedule and address policy (70% with address reuse): caches enabled vs every lookup forced to miss. Outputs, exit and host failures must agree; each site's result is also checked against what the program's construction prescribes.",
         "design_ref": "DESIGN.md section 3 C13",
         "note": "The forced-miss execution is the specification (hook returns 'miss' before the lookup; fills still happen).",
         "technique": "deterministic simulation: cache-enabled vs forced-miss execution under seeded GC schedules with eager address reuse",
     },
     "C14": {
         "category": "exploration",
-        "text": "The simulator is built twice (tagged-enum and NaN-boxed values) and both workers execute identical jobs: fixture corpus, generated workloads of all other checks, and generated numeric programs (-0, infinities, NaNs, subnormals, 2^53 neighbours through ==, ordering, map keys, has/index, formatting, parsing, rounding, truthiness, printing and iterating scalar-keyed maps), each under the same seeded GC schedule and address policy. stdout, stderr, exit status and host failures must be equal across builds.",
+        "text": "The simulator is built twice (tagged-enum and NaN-boxed values) and both workers execute identical jobs: fixture corpus, generated workloads of all other checks, and generated numeric programs (-0, infinities, NaNs, subnormals, 2^53 neighbours through ==, ordering, map keys, has/index, formatting, parsing, rounding, truthiness, printing and iterating scalar-keyed maps), built-ins applied to operands of every kind (results, error classes and messages), lists growing past their block through aliases around power-of-two and page-size element counts, each under the same seeded GC schedule and address policy. stdout, stderr, exit status and host failures must be equal across builds.",
         "design_ref": "DESIGN.md section 3 C14",
         "note": "Configuration differential: there is no schedule in the property itself; what simulation adds is identical seeds/schedules in both builds and the NaN-boxed tracing/equality under GC schedules on the poisoning heap. Address-sensitive programs compared on exit class only.",
         "technique": "deterministic simulation of both build configurations under identical seeds, workloads and schedules; cross-build differential",
     },
     "C20": {
         "category": "exploration",
-        "text": "The simulated heap keeps independent books (size, alignment, liveness of every managed block). At the first quiescent point after every collection and at end of run the worker checks conservation: reported bytes == sum of owned sizes == live arena bytes, owned blocks == live arena blocks, intern table == live strings after a full collection, a back-to-back second full collection frees nothing, next_gc == 2 x live under the shipped threshold policy, every release carries its allocation layout, the arena is empty after the VM is dropped, and a program that ends normally leaves exactly the start-up number of temporary roots; churn loops with phase markers (90-140 phases, garbage of every object kind incl. errors raised inside natives) check bounded memory (no sustained rise of the live size). Seeded nursery/full interleavings over corpus + generated programs.",
+        "text": "The simulated heap keeps independent books (size, alignment, liveness of every managed block). At the first quiescent point after every collection and at end of run the worker checks conservation: reported bytes == sum of owned sizes == live arena bytes, owned blocks == live arena blocks, intern table == live strings after a full collection, a back-to-back second full collection frees nothing, next_gc == 2 x live under the shipped threshold policy, every release carries its allocation layout, the arena is empty after the VM is dropped, a program that ends normally leaves exactly the start-up number of temporary roots, and between full collections the heap does not drift away from the live size (after any nursery collection under the shipped threshold policy at most 16 x the bytes alive at the latest full collection + 1 MiB are in use, in loops producing short-lived objects of several kilobytes); churn loops with phase markers (90-140 phases, garbage of every object kind incl. errors raised inside natives, twelve mailboxes served round robin by the long-lived main fiber) check bounded memory (no sustained rise of the live size). Seeded nursery/full interleavings over corpus + generated programs.",
         "design_ref": "DESIGN.md section 3 C20",
         "note": "Trusts the arena side table as truth; invariants evaluated at quiescent points only; bounded-memory clause detects leaks of >= 1 block (or 16 bytes) per two loop iterations sustained over both halves of >= 60 phases and above a noise floor of 8 blocks / 640 bytes; channel creation inside the steady loop excluded (known finding C20-channel-retention).",
         "technique": "deterministic simulation: conservation invariants against the simulated heap's books under seeded collection interleavings",
